@@ -214,6 +214,7 @@ func render(args []string) {
 	in := fs.String("in", "", "")
 	out := fs.String("out", "cases.ndjson", "")
 	min := fs.Bool("min", false, "render with minimal parentheses")
+	noobs := fs.Bool("noobs", false, "render only, do not execute")
 	fs.Parse(args)
 	rows, err := run.ReadNDJSON(*in)
 	if err != nil {
@@ -235,7 +236,9 @@ func render(args []string) {
 			c["src"] = ast.Render(prog)
 		}
 	}
-	observe(rows)
+	if !*noobs {
+		observe(rows)
+	}
 	if err := run.WriteNDJSON(*out, rows); err != nil {
 		fmt.Fprintln(os.Stderr, err)
 		os.Exit(2)
